@@ -49,3 +49,13 @@ declare_fields('Assembler', _source_file='str', _output_file='str', _config_file
                _enable_pretty_print='bool', _pretty_print_format='str', _pretty_print_output='str',
                _binary_fill_value='int', _verbose='int', _binary_start='int', _binary_end='int?',
                _model='AssemblerModel', _include_paths='list[str]', _predefined_symbols='list[str]')
+
+declare_fields('AssemblerModel', _config_file='str', _global_label_scope='LabelScope?', _config='cfg', _isa_name='str',
+               _isa_version='str', _file_extension='str', _registers='set[str]', _operand_sets='OperandSetCollection',
+               _instructions='InstructionSet')
+declare_fields('Operand', _id='str', _config='cfg', _default_endian='str')
+declare_fields('OperandParser', _config='cfg', _specific_operands_model='SpecificOperandsModel?',
+               _operand_sets_model='OperandSetsModel?')
+declare_fields('OperandSetsModel', _config='cfg', _operand_sets='list[OperandSet]')
+declare_fields('SpecificOperandsModel', _specific_operands='list[SpecificOperandConfig]')
+declare_fields('SpecificOperandConfig', _config='cfg', _operands='list[Operand]')
